@@ -59,3 +59,72 @@ Proof.
   exact (subst_narrows_verdict s Hwf v s' Hpl Hs (subst_wf_lemma s Hwf v s' Hpl Hvw Hs) w Hv).
 Qed.
 Print Assumptions subst_narrows_verdict_closed.
+
+(* Chained substitution, any number of steps: ((S % v1) % v2) % ... % vn, every vi plain with
+   distinct dict keys.  If the whole chain succeeds, the final schema is well-formed and every
+   value it accepts is accepted by EVERY intermediate schema and by S itself: narrowing
+   composes, nothing a step pinned or kept is lost by a later step.  Induction over the list
+   of values; no bound on its length. *)
+Definition subst_chain (s : schema) (vs : list value) : result schema :=
+  fold_left (fun r v => bind r (fun s0 => substitute s0 v)) vs (Ok s).
+
+Lemma subst_chain_not_ok : forall vs (r : result schema) s',
+  is_ok r = false -> fold_left (fun r v => bind r (fun s0 => substitute s0 v)) vs r <> Ok s'.
+Proof.
+  induction vs as [|v vs IH]; intros r s' Hr; cbn [fold_left].
+  - destruct r; [discriminate Hr | discriminate | discriminate].
+  - apply IH. destruct r; [discriminate Hr | reflexivity | reflexivity].
+Qed.
+
+Theorem subst_chain_narrows :
+  forall vs s, wf s = true ->
+  forallb plain vs = true -> forallb vwf vs = true ->
+  forall s', subst_chain s vs = Ok s' ->
+  wf s' = true /\ forall w, verdict s' w = true -> verdict s w = true.
+Proof.
+  unfold subst_chain.
+  induction vs as [|v vs IH]; intros s Hwf Hpl Hvw s' Hs; cbn [fold_left] in Hs.
+  - inversion Hs; subst. split; [exact Hwf | auto].
+  - cbn [forallb] in Hpl, Hvw.
+    apply andb_prop in Hpl. destruct Hpl as [Hp1 Hp2].
+    apply andb_prop in Hvw. destruct Hvw as [Hv1 Hv2].
+    cbn [bind] in Hs.
+    destruct (substitute s v) as [s1 | k | e] eqn:E1.
+    + pose proof (subst_wf_lemma s Hwf v s1 Hp1 Hv1 E1) as Hwf1.
+      destruct (IH s1 Hwf1 Hp2 Hv2 s' Hs) as [Hwf' Hn].
+      split; [exact Hwf'|]. intros w Hw.
+      exact (subst_narrows_verdict_closed s Hwf v s1 Hp1 Hv1 E1 w (Hn w Hw)).
+    + exfalso. exact (subst_chain_not_ok vs (Err k) s' eq_refl Hs).
+    + exfalso. exact (subst_chain_not_ok vs (Raise e) s' eq_refl Hs).
+Qed.
+Print Assumptions subst_chain_narrows.
+
+(* every prefix of the chain is narrowed too: the final schema refines each intermediate one *)
+Theorem subst_chain_narrows_intermediate :
+  forall vs1 vs2 s, wf s = true ->
+  forallb plain (vs1 ++ vs2) = true -> forallb vwf (vs1 ++ vs2) = true ->
+  forall s', subst_chain s (vs1 ++ vs2) = Ok s' ->
+  exists s1, subst_chain s vs1 = Ok s1 /\ wf s1 = true /\
+             forall w, verdict s' w = true -> verdict s1 w = true.
+Proof.
+  intros vs1 vs2 s Hwf Hpl Hvw s' Hs.
+  unfold subst_chain in *. rewrite fold_left_app in Hs.
+  rewrite forallb_app in Hpl, Hvw.
+  apply andb_prop in Hpl. destruct Hpl as [Hp1 Hp2].
+  apply andb_prop in Hvw. destruct Hvw as [Hv1 Hv2].
+  destruct (fold_left (fun r v => bind r (fun s0 => substitute s0 v)) vs1 (Ok s)) as [s1 | k | e] eqn:E1.
+  - exists s1. split; [reflexivity|].
+    destruct (subst_chain_narrows vs1 s Hwf Hp1 Hv1 s1 E1) as [Hwf1 _].
+    split; [exact Hwf1|].
+    exact (proj2 (subst_chain_narrows vs2 s1 Hwf1 Hp2 Hv2 s' Hs)).
+  - exfalso. exact (subst_chain_not_ok vs2 (Err k) s' eq_refl Hs).
+  - exfalso. exact (subst_chain_not_ok vs2 (Raise e) s' eq_refl Hs).
+Qed.
+Print Assumptions subst_chain_narrows_intermediate.
+
+(* non-vacuity: a two-step chain on the example above (a partial value, then a fuller one) *)
+Definition ex_v2 : value := VList [VInt 7%Z; VDict [(KStr [97], VInt 3%Z); (KStr [98], VStr [120])]; VNone].
+Example ex_chain_hyps :
+  forallb plain [ex_v; ex_v2] = true /\ forallb vwf [ex_v; ex_v2] = true
+  /\ is_ok (subst_chain ex_s [ex_v; ex_v2]) = true.
+Proof. vm_compute. auto. Qed.
